@@ -21,6 +21,7 @@ CONSTANTS
   Kind,              \* "ring" | "fallback"
   Ops,               \* operation slots (strings)
   FileOps,           \* slots whose source is a regular file: never blocks, empty means end of file, single reads only
+  SrcType,           \* the other sources: "pipe" (read), "stream" (recv on a stream socket), "dgram" (recv on a datagram socket)
   MaxPend,           \* bound on readable chunks per source
   MaxH,              \* user handle slots
   \* the mechanisms of the code; all TRUE is the code as written, one FALSE is a control (must violate)
@@ -41,6 +42,7 @@ VARIABLES
   okind,     \* [Ops -> {"single","multi"}]
   ink,       \* [Ops -> BOOLEAN] the kernel / reactor still owns the request (no final completion posted)
   creq,      \* [Ops -> BOOLEAN] cancellation requested
+  fresh,     \* [Ops -> BOOLEAN] ring: submitted, the kernel has not made its first issue attempt yet
   cq,        \* [Ops -> Seq(CQE)] completions posted, not yet processed by Driver::poll
   mq,        \* [Ops -> Seq(CQE)] multishot results pushed into the op (BufferGuard), not popped
   fin,       \* [Ops -> CQE] final result stored by set_result (res = "none": not yet)
@@ -49,8 +51,8 @@ VARIABLES
   eof,       \* [Ops -> BOOLEAN] writer closed
   hand       \* [Hs -> Bufs \cup {NoBuf}] BufferRef handles held by the user
 
-vars == <<slot, provided, mem, alive, ost, okind, ink, creq, cq, mq, fin, obuf, pend, eof, hand>>
-opvars == <<ost, okind, ink, creq, cq, mq, fin, obuf>>
+vars == <<slot, provided, mem, alive, ost, okind, ink, creq, fresh, cq, mq, fin, obuf, pend, eof, hand>>
+opvars == <<ost, okind, ink, creq, fresh, cq, mq, fin, obuf>>
 
 Cqe(r, b, m) == [res |-> r, buf |-> b, more |-> m]
 NoRes == Cqe("none", NoBuf, FALSE)
@@ -90,6 +92,7 @@ ClearOp(o, st) ==
   /\ ost' = [ost EXCEPT ![o] = st]
   /\ ink' = [ink EXCEPT ![o] = FALSE]
   /\ creq' = [creq EXCEPT ![o] = FALSE]
+  /\ fresh' = [fresh EXCEPT ![o] = FALSE]
   /\ cq' = [cq EXCEPT ![o] = <<>>]
   /\ mq' = [mq EXCEPT ![o] = <<>>]
   /\ fin' = [fin EXCEPT ![o] = NoRes]
@@ -108,6 +111,7 @@ Init ==
   /\ okind = [o \in Ops |-> "single"]
   /\ ink = [o \in Ops |-> FALSE]
   /\ creq = [o \in Ops |-> FALSE]
+  /\ fresh = [o \in Ops |-> FALSE]
   /\ cq = [o \in Ops |-> <<>>]
   /\ mq = [o \in Ops |-> <<>>]
   /\ fin = [o \in Ops |-> NoRes]
@@ -127,6 +131,7 @@ Submit(o, k) ==
   /\ okind' = [okind EXCEPT ![o] = k]
   /\ ost' = [ost EXCEPT ![o] = "armed"]
   /\ ink' = [ink EXCEPT ![o] = TRUE]
+  /\ fresh' = [fresh EXCEPT ![o] = (Kind = "ring")]
   /\ IF Kind = "fallback"
        THEN /\ provided' = Tail(provided)
             /\ slot' = [slot EXCEPT ![Head(provided)] = ~TakeEmptiesSlot]
@@ -150,7 +155,7 @@ YieldQueued(o) ==     \* pop_multishot (guard leaked) + BufferPool::take(buffer_
             THEN /\ slot' = [slot EXCEPT ![b] = ~TakeEmptiesSlot]
                  /\ hand' = [hand EXCEPT ![FreeHandle] = b]
             ELSE UNCHANGED <<slot, hand>>
-  /\ UNCHANGED <<provided, mem, alive, ost, okind, ink, creq, cq, fin, obuf, pend, eof>>
+  /\ UNCHANGED <<provided, mem, alive, ost, okind, ink, creq, fresh, cq, fin, obuf, pend, eof>>
 
 FinalReady(o) == alive /\ ost[o] = "done" /\ mq[o] = <<>>
 
@@ -196,7 +201,7 @@ Cancel(o) ==
                       /\ ink' = [ink EXCEPT ![o] = FALSE]
                       /\ cq' = [cq EXCEPT ![o] = Append(@, Cqe("cancelled", NoBuf, FALSE))]
                  ELSE UNCHANGED <<ink, cq>>
-            /\ UNCHANGED <<slot, provided, mem, okind, mq, fin, obuf>>
+            /\ UNCHANGED <<slot, provided, mem, okind, fresh, mq, fin, obuf>>
   /\ UNCHANGED <<alive, pend, eof, hand>>
 StreamDrop(o) == Cancel(o)
 
@@ -214,6 +219,10 @@ Close(o) ==
 (* ---- kernel / reactor -------------------------------------------------- *)
 AtEnd(o) == pend[o] = 0 /\ (eof[o] \/ o \in FileOps)
 Post(o, c) == cq' = [cq EXCEPT ![o] = Append(@, c)]
+EofKeepsBuffer(o) == o \in FileOps \/ SrcType = "pipe"
+(* after a multishot completion on a datagram socket the kernel cannot tell whether more is queued and
+   issues the request again at once (which needs a buffer) *)
+RetryAfterMore(o) == SrcType = "dgram" /\ o \notin FileOps
 
 (* data is readable: the kernel selects the buffer at the head of the ring (never anything else),
    or reports ENOBUFS; a multishot request stays armed after a successful completion *)
@@ -229,21 +238,31 @@ KernelSelect(o) ==
             /\ ink' = [ink EXCEPT ![o] = FALSE]
             /\ UNCHANGED provided
   /\ pend' = [pend EXCEPT ![o] = @ - 1]
+  /\ fresh' = [fresh EXCEPT ![o] = (Kind = "ring" /\ okind[o] = "multi" /\ RetryAfterMore(o))]
   /\ UNCHANGED <<slot, mem, alive, ost, okind, creq, mq, fin, obuf, eof, hand>>
 
 KernelNoBufs(o) ==
   /\ alive /\ ink[o] /\ Kind = "ring" /\ provided = <<>>
-  /\ (pend[o] > 0 \/ AtEnd(o))
+  /\ (fresh[o] \/ pend[o] > 0 \/ AtEnd(o))
   /\ Post(o, Cqe("enobufs", NoBuf, FALSE))
   /\ ink' = [ink EXCEPT ![o] = FALSE]
+  /\ fresh' = [fresh EXCEPT ![o] = FALSE]
   /\ UNCHANGED <<slot, provided, mem, alive, ost, okind, creq, mq, fin, obuf, pend, eof, hand>>
 
-(* end of data. ring, single read: the kernel has already selected a buffer and reports 0 with it;
-   ring, multishot: the buffer is recycled, 0 without a buffer. fallback: 0 into the op's own buffer *)
+(* ring: first issue attempt with a buffer available and nothing to read: the buffer is recycled, the
+   request is armed on the file's readiness *)
+KernelArm(o) ==
+  /\ alive /\ ink[o] /\ fresh[o] /\ Kind = "ring" /\ provided # <<>> /\ pend[o] = 0 /\ ~AtEnd(o)
+  /\ fresh' = [fresh EXCEPT ![o] = FALSE]
+  /\ UNCHANGED <<slot, provided, mem, alive, ost, okind, ink, creq, cq, mq, fin, obuf, pend, eof, hand>>
+
+(* end of data. ring, single read(2)-type request: the kernel has already selected a buffer and reports 0
+   with it; ring, recv or multishot: the buffer is recycled, 0 without a buffer. fallback: 0 into the op's
+   own buffer *)
 KernelEof(o) ==
   /\ alive /\ ink[o] /\ AtEnd(o)
   /\ (Kind = "fallback" => ~creq[o] \/ o \in FileOps)
-  /\ IF Kind = "ring" /\ okind[o] = "single"
+  /\ IF Kind = "ring" /\ okind[o] = "single" /\ EofKeepsBuffer(o)
        THEN /\ provided # <<>>
             /\ provided' = Tail(provided)
             /\ Post(o, Cqe("eof", Head(provided), FALSE))
@@ -251,12 +270,14 @@ KernelEof(o) ==
             /\ Post(o, Cqe("eof", NoBuf, FALSE))
             /\ UNCHANGED provided
   /\ ink' = [ink EXCEPT ![o] = FALSE]
+  /\ fresh' = [fresh EXCEPT ![o] = FALSE]
   /\ UNCHANGED <<slot, mem, alive, ost, okind, creq, mq, fin, obuf, pend, eof, hand>>
 
 KernelCancel(o) ==     \* AsyncCancel reaches a request that is still armed
   /\ alive /\ ink[o] /\ creq[o] /\ Kind = "ring"
   /\ Post(o, Cqe("cancelled", NoBuf, FALSE))
   /\ ink' = [ink EXCEPT ![o] = FALSE]
+  /\ fresh' = [fresh EXCEPT ![o] = FALSE]
   /\ UNCHANGED <<slot, provided, mem, alive, ost, okind, creq, mq, fin, obuf, pend, eof, hand>>
 
 (* ---- Driver::poll processes one completion -------------------------------- *)
@@ -264,7 +285,7 @@ PushMultishot(o) ==    \* CQE flagged MORE: push_multishot, the buffer stays in 
   /\ alive /\ cq[o] # <<>> /\ Head(cq[o]).more
   /\ mq' = [mq EXCEPT ![o] = Append(@, Head(cq[o]))]
   /\ cq' = [cq EXCEPT ![o] = Tail(@)]
-  /\ UNCHANGED <<slot, provided, mem, alive, ost, okind, ink, creq, fin, obuf, pend, eof, hand>>
+  /\ UNCHANGED <<slot, provided, mem, alive, ost, okind, ink, creq, fresh, fin, obuf, pend, eof, hand>>
 
 (* final CQE: Entry::notify -> set_result: the selected buffer is adopted (take). The user still holds the key. *)
 Adopt(o) ==
@@ -277,7 +298,7 @@ Adopt(o) ==
             ELSE UNCHANGED <<slot, obuf>>
   /\ cq' = [cq EXCEPT ![o] = Tail(@)]
   /\ ost' = [ost EXCEPT ![o] = "done"]
-  /\ UNCHANGED <<provided, mem, alive, okind, ink, creq, mq, pend, eof, hand>>
+  /\ UNCHANGED <<provided, mem, alive, okind, ink, creq, fresh, mq, pend, eof, hand>>
 
 (* final CQE of an op whose key the user gave up: adopted as well, then the last reference goes away and
    the op is dropped with its BufferRef and its queued results *)
@@ -305,6 +326,7 @@ PoolRelease ==
   /\ ost' = [o \in Ops |-> IF ost[o] \in {"armed", "done"} THEN "orphan" ELSE "idle"]
   /\ ink' = [o \in Ops |-> FALSE]
   /\ creq' = [o \in Ops |-> FALSE]
+  /\ fresh' = [o \in Ops |-> FALSE]
   /\ cq' = [o \in Ops |-> <<>>]
   /\ mq' = [o \in Ops |-> <<>>]
   /\ fin' = [o \in Ops |-> NoRes]
@@ -324,7 +346,7 @@ HandleDropAfterRelease(h) ==
   /\ UNCHANGED <<alive, pend, eof>> /\ UNCHANGED opvars
 
 ----------------------------------------------------------------------------
-Kernel(o) == KernelSelect(o) \/ KernelNoBufs(o) \/ KernelEof(o) \/ KernelCancel(o)
+Kernel(o) == KernelSelect(o) \/ KernelNoBufs(o) \/ KernelArm(o) \/ KernelEof(o) \/ KernelCancel(o)
 Driver(o) == PushMultishot(o) \/ Adopt(o) \/ AdoptAndFree(o)
 User(o) == SubmitManaged(o) \/ SubmitMulti(o) \/ ExhaustedAtSubmit(o) \/ YieldQueued(o) \/ YieldHandle(o)
            \/ Exhausted(o) \/ NextEnd(o) \/ Cancel(o) \/ KeyDropAfterRelease(o)
